@@ -93,7 +93,7 @@ def upstream_family(chk, model_inv, model_props, trace_inv):
     v, st = run_u(chk, dict(sched_of(big), walks=150 if quick else 30000, depth=90), "walks", big, trace_inv)
     for k, n in st["by_op"].items():
         ops[k] = ops.get(k, 0) + n
-    v, st = run_u(chk, dict(sched_of(big), conc=40 if quick else 12000, goroutines=4, concCalls=30), "concurrent",
+    v, st = run_u(chk, dict(sched_of(big), conc=120 if quick else 12000, goroutines=4, concCalls=30), "concurrent",
                   big, trace_inv, race=True)
     for k, n in st["by_op"].items():
         ops[k] = ops.get(k, 0) + n
